@@ -7,6 +7,7 @@ mod gen;
 mod proj;
 mod rng;
 mod sessions;
+mod train;
 mod trainer_cases;
 
 use std::collections::HashMap;
@@ -51,6 +52,7 @@ fn main() {
         "corpus-cases" => trainer_cases::corpus_cases(&a),
         "record-corpus" => trainer_cases::record_corpus(&a),
         "record-mecab-lines" => trainer_cases::record_mecab_lines(&a),
+        "record-train" => train::record(&a),
         "record-dict" => dictops::record(&a),
         "replay-dict" => dictops::replay(&a),
         _ => {
